@@ -213,7 +213,9 @@ func refIndex(g *GPath, withTargetOrigin bool) []string {
 }
 
 // SubList is a gnmi.SubscriptionList as scenario data. A nil entry of Subs is
-// a Subscription without a path (the server skips it).
+// a Subscription without a path: it addresses the prefix itself, in the
+// registration as in the initial walk (path.CompletePath). (Until the repair
+// recorded as D23 the server skipped it when registering.)
 type SubList struct {
 	Prefix *GPath   `json:"prefix"`
 	Subs   []*GPath `json:"subs"`
@@ -253,7 +255,7 @@ func refQueries(l *SubList) [][]string {
 	seen := map[string]bool{}
 	for _, g := range l.Subs {
 		if g == nil {
-			continue
+			g = &GPath{}
 		}
 		q := refQuery(l.Prefix, g)
 		if !seen[key(q)] {
